@@ -955,6 +955,12 @@ where
                 continue;
             }
 
+            // A reload may have replaced the pools since the previous message: the routing
+            // commands, the parser, the plugins and the pause gate below are those of the
+            // configuration in force, not of the one this client last ran a transaction under.
+            pool = self.get_pool().await?;
+            query_router.update_pool_settings(&pool.settings);
+
             // Handle all custom protocol commands, if any.
             if self
                 .handle_custom_protocol(&mut query_router, &message, &pool)
